@@ -341,10 +341,30 @@ func (p *Parser) parseSpecs(specs []srcInput, listener *TreeShapeListener) (*sys
 		}
 	}
 
+	if err := p.finishModule(listener, specs); err != nil {
+		return nil, err
+	}
+	return listener.module, nil
+}
+
+// finishModule runs the steps that follow the tree walks: lint, post-processing of the merged module and type
+// inference of views. Like the listener, they assert their structural assumptions with panics (e.g. on a nested
+// transform without a declared type whose body assigns a plain value); such a panic is reported as a parse error
+// of the specification instead of killing the process.
+func (p *Parser) finishModule(listener *TreeShapeListener, specs []srcInput) (err error) {
+	defer func() {
+		if r := recover(); r != nil {
+			root := ""
+			if len(specs) > 0 {
+				root = specs[0].src.filename
+			}
+			err = syslutil.Exitf(ParseError, "%s cannot be processed: %v\n", root, r)
+		}
+	}()
 	listener.lintAppDefs()
 	listener.lintEndpoint()
 	p.postProcess(listener.module)
-	return listener.module, nil
+	return nil
 }
 
 // Takes a starting file and flattens all the imports that were already retrieved into an ordered list (recursively)
